@@ -109,6 +109,26 @@ def lookup(eng, d, k):
 
 
 @spec
+def dictcopy(eng, d):
+    """a new dict object with the contents of d (result of d.copy())"""
+    ver = eng.store_of(d)
+    spec, eng.spec = eng.spec, 0
+    try:
+        return eng.alloc(DictVal(ver, pyclass="dict"))
+    finally:
+        eng.spec = spec
+
+
+@spec
+def setcopy(eng, s):
+    """a new set object with the members of s"""
+    if not isinstance(s, SetVal):
+        raise Unsupported("set expected")
+    mem, card = (eng.old[id(s)] if eng.old is not None and id(s) in eng.old else (s.mem, s.card))
+    return eng.alloc(SetVal(mem, card))
+
+
+@spec
 def maxabs(eng, d):
     """largest coefficient magnitude of the dict / model (0 for an empty one)"""
     return SV(FO.maxabs_of(eng, eng.store_of(d)), "real")
